@@ -1164,6 +1164,9 @@ fn script_elem<'a>(kind: &str, sp: &'a Spend, items: &'a [Vec<u8>], spk: &'a [u8
     }
 }
 
+pub fn ssig_items_pub(b: &[u8]) -> Option<Vec<Vec<u8>>> { ssig_items(Script::from_bytes(b)) }
+pub fn build_ssig_pub(items: &[Vec<u8>]) -> Vec<u8> { build_ssig(items) }
+
 pub struct Stats {
     pub spends: u64,
 }
@@ -1404,6 +1407,7 @@ fn emit_spend(
             }
         }
     }
+    crate::interp_ftx::emit_ftx(out, &spk, sp);
     writeln!(out, "ENDSP").unwrap();
 }
 
@@ -1568,6 +1572,13 @@ fn run_case(w: &World, c: &Case, id: u64, sane: bool, rng: &mut Rng, budget: usi
             emit_spend(w, c, env, &tx, b, *sid, &policy, &mut dec_cache, out);
             // full mutation budget in the first two environments, a small one elsewhere
             let bud = if ei < 2 { budget } else { (budget / 6).max(2) };
+            if bi < 2 && ei < 2 {
+                // directed malformed stream for from_txdata (model: coq/Ms/InterpTxdataModel.v)
+                for msp in crate::interp_ftx::ftx_mutants(b, c.kind) {
+                    *sid += 1;
+                    emit_spend(w, c, env, &tx, &msp, *sid, &policy, &mut dec_cache, out);
+                }
+            }
             if bi < 3 {
                 for msp in mutants(b, c.kind, &mctx, rng, bud) {
                     *sid += 1;
